@@ -668,6 +668,21 @@ func (p *picture) checkFormatted(x float64, out string) string {
 		}
 		e = sign * n
 		p.lastMant = new(big.Rat).Set(rv)
+		if p.intOpt == 0 && p.intMand >= 1 && x != 0 {
+			// XPath F&O 4.7.5: the mantissa is scaled into [10^(N-1), 10^N), N the
+			// number of mandatory integer digits; only rounding to the picture's
+			// fraction digits can carry it up to 10^N itself
+			top := pow10Rat(p.intMand)
+			if c := rv.Cmp(top); c > 0 {
+				return fmt.Sprintf("the mantissa %s is not below 10^%d (the picture's integer part has %d digits)", num, p.intMand, p.intMand)
+			} else if c == 0 {
+				exact := new(big.Rat).Mul(exactRat(math.Abs(x)), pow10Rat(p.scale-e))
+				short := new(big.Rat).Mul(shortestRat(math.Abs(x)), pow10Rat(p.scale-e))
+				if exact.Cmp(top) >= 0 && short.Cmp(top) >= 0 {
+					return fmt.Sprintf("the mantissa %s is 10^%d although no rounding carried it there: it must be scaled below 10^%d", num, p.intMand, p.intMand)
+				}
+			}
+		}
 		rv.Mul(rv, pow10Rat(e))
 	} else {
 		p.lastMant = new(big.Rat).Set(rv)
